@@ -234,12 +234,12 @@ def check(cases, want_spec=True):
             disagreements.append({"stream": "isa", "case": rcase, "model": ae[:4000], "impl": real_line[:4000]})
         # (c) WF monitor
         if exc is not None:
-            violations.append({"property": "C02", "stream": "isa", "case": rcase,
+            violations.append({"property": "C02", "stream": "isa", "case": rcase, "sig": cls + ":exception",
                                "what": "internal error {} executing a valid instruction on a well-formed machine".format(exc)})
             continue
         w = wf_violation(vm)
         if w:
-            violations.append({"property": "C02", "stream": "isa", "case": rcase,
+            violations.append({"property": "C02", "stream": "isa", "case": rcase, "sig": cls + ":wf",
                                "what": "machine not well-formed after {}{}: {}".format(cls, tuple(case["args"]), w)})
         # (b) spec
         if not want_spec:
@@ -284,6 +284,7 @@ def check(cases, want_spec=True):
                 bad = "instruction wrote {!r} to stdout".format(text)
         if bad:
             violations.append({"property": "C01", "stream": "isa", "case": rcase,
+                               "sig": cls + ":" + bad.split(" ")[0].rstrip("0123456789[]"),
                                "what": "{}{}: {}".format(cls, tuple(case["args"]), bad)})
     return {"evaluations": len(cases), "disagreements": disagreements, "violations": violations,
             "distribution": dist}
